@@ -255,7 +255,8 @@ def main(check_factory, argv=None):
         # cases of repaired defects (replays/regress/<id>-*.json) are replayed first: a returning defect is reported
         # with the replay that found it the first time
         regress_dir = os.path.join(core.VERIF, "replays", "regress")
-        for name in sorted(os.listdir(regress_dir)) if os.path.isdir(regress_dir) else []:
+        # (VERIF_NO_REGRESS: tools/eval_mutant.py evaluating a seeded change on an older commit that lacks the repairs)
+        for name in sorted(os.listdir(regress_dir)) if os.path.isdir(regress_dir) and not os.environ.get("VERIF_NO_REGRESS") else []:
             if not (name.startswith(check.prop + "-") and name.endswith(".json")):
                 continue
             with open(os.path.join(regress_dir, name)) as handle:
